@@ -113,7 +113,15 @@ def check_params(inp, mods, rng=None):
     try:
         if stub is not None:
             random.random = lambda: stub
-        b1 = rg.gen_rnd_board(seed, L, W, p, m, fd)
+        b1_ret = rg.gen_rnd_board(seed, L, W, p, m, fd)
+        import copy as _copy
+        b1 = _copy.deepcopy(b1_ret)
+        for part in b1_ret:                 # the caller owns the board it was given and may edit it: a later call must not see that
+            for row in (part if isinstance(part, list) else []):
+                if isinstance(row, list):
+                    for k_ in range(len(row)):
+                        row[k_] = 99
+                    row.append(99)
         if stub is None:
             rg.gen_rnd_board(seed + 1, 2, 2, 0.5, 3, not fd)          # an unrelated draw in between
             random.random()
@@ -124,7 +132,7 @@ def check_params(inp, mods, rng=None):
     finally:
         random.random = orig
     if b1 != b2:
-        F.append(({'C15'}, 'reproducible', f'two calls with seed={seed} {L}x{W} p={p} m={m} fd={fd} differ'))
+        F.append(({'C15'}, 'reproducible', f'two calls with seed={seed} {L}x{W} p={p} m={m} fd={fd} differ (the board returned by the first call was edited by its caller in between): {b1!r} vs {b2!r}'[:600]))
     moves, rewards, loose = b1
     for nm, g in (('moves', moves), ('rewards', rewards), ('loose_tiles', loose)):
         if len(g) != L or any(len(r) != W for r in g):
